@@ -5,7 +5,9 @@ import (
 	"errors"
 	"fmt"
 	"io"
+	"os"
 	"regexp"
+	"runtime/debug"
 	"strings"
 	"time"
 	"unicode/utf8"
@@ -201,6 +203,9 @@ func zooRun(name string, data []byte, o zooOpts) zooResult {
 		defer func() {
 			if p := recover(); p != nil {
 				res.verdict, res.detail = "panic", fmt.Sprint(p)
+				if os.Getenv("VERIF_TRACE") != "" {
+					fmt.Fprintf(os.Stderr, "%s\n", debug.Stack())
+				}
 			}
 			ch <- res
 		}()
